@@ -690,3 +690,64 @@ def r33(text):
         text = text[:rs] + rep + text[m.end():]
         n += 1
     return text, n
+
+
+@rule("R10i", "Definition of `for` over an iterator value: `for x in IT {B}` -> `let mut it_ = IT; loop { let Some(x) = it_.next() "
+              "else { break }; B }` (IT is the prelude's specified `Split`).")
+def r10i(text):
+    return re.subn(r"\bfor\s+(\w+)\s+in\s+(\w+)\s*\{", r"let mut it_ = \2; loop { let Some(\1) = it_.next() else { break };", text)
+
+
+@rule("T_bw", "Type-level (gzip.rs): `where` bounds of the struct/enum dropped (they only select impls); "
+              "`flate2::write::GzEncoder<chunker::Writer<D, E>>` kept verbatim against the prelude's opaque GzEncoder.")
+def t_bw(text):
+    return _subn([
+        (r"\bwhere\s+D:[^;{]*?E:[^;{]*?(?=[;{])", ""),
+        (r"\bpub\(crate\)\s*", "pub "),
+    ], text)
+
+
+@rule("R17", "`path.as_bytes()` -> `path` with the parameter typed `&[u8]` in the overlay (Verus has no byte view of `str`; "
+             "the function only ever looks at the bytes); `X.first() == Some(&C)` -> `(X.len() > 0 && X[0] == C)` (definition).")
+def r17(text):
+    t, n1 = re.subn(r"\bpath\.as_bytes\(\)", "path", text)
+    t, n2 = re.subn(r"\b(\w+)\.first\(\)\s*==\s*Some\(&(b'(?:[^'\\]|\\.)')\)", r"(\1.len() > 0 && \1[0] == \2)", t)
+    return t, n1 + n2
+
+
+@rule("R19b", "Byte-slice tail borrow `&X[a..]` -> `slice_from(X, a)` (verified definitional helper; `a <= len` is its precondition, "
+              "the panic condition of the indexing).")
+def r19b(text):
+    n = 0
+    while True:
+        m = re.search(r"&(\w+)\[([^\[\]]*?)\.\.\]", text)
+        if not m:
+            break
+        text = text[:m.start()] + "slice_from(%s, %s)" % (m.group(1), m.group(2).strip()) + text[m.end():]
+        n += 1
+    return text, n
+
+
+@rule("R35", "Definition of `Option::get_or_insert_with` in statement position: `X.get_or_insert_with(|| E);` -> "
+             "`if X.is_none() { X = Some(E); }`.")
+def r35(text):
+    n = 0
+    while True:
+        m = re.search(r"\.\s*get_or_insert_with\(\s*\|\|", text)
+        if not m:
+            break
+        o = text.index("(", m.start())
+        toks = tokenize(text[o:])
+        c = o + toks[match_close(toks, 0)].start
+        inner = text[m.end():c].strip()
+        rs = _receiver_start(text, m.start())
+        recv = text[rs:m.start()].rstrip()
+        e = c + 1
+        if text[e:e + 1] == ";":
+            e += 1
+        rep = "if %s.is_none() { %s = Some(%s); }" % (recv, recv, inner)
+        old = text[rs:e]
+        rep = rep + "\n" * max(0, old.count("\n") - rep.count("\n"))
+        text = text[:rs] + rep + text[e:]
+        n += 1
+    return text, n
